@@ -57,9 +57,11 @@ def transform_step(row, field_name, transform):
     return row
 
 
-def custom_row_step(res_name, row, i, row_validator, handler):
+def custom_row_step(res_name, row, i, row_validator, handler, field):
+    # field: the schema field a ONE-FIELD validator looks at (the handler needs it: `clear` nulls exactly that field), None for a
+    # validator of whole rows
     if not row_validator(row):
-        if not handler(res_name, row, i, None, None):
+        if not handler(res_name, row, i, None, field):
             return []
     return [row]
 '''
@@ -749,12 +751,18 @@ def sym_validate_custom(vc):
                     rv = UFunc('rv', lambda it_, a, k: it_.call(chk, [it_.lib._row_get(it_, a[0], 'fld')]), True)
                 sp = spec.bind(it)
                 r = mk_resource(it, 'res')
+                from pyvc.api import Opaque
+                fld_obj = Opaque('Field', 'schema_field_fld')
+                schema = Opaque('Schema', 'schema')
+                schema.attrs['call:get_field'] = lambda it_, o, a, k: fld_obj if a and a[0] == 'fld' else None
+                r.attrs['res'].attrs['schema'] = schema
 
                 def at_start(it, env, elem):
                     it.path.info['in_iter'] = True
                     i, row = elem
                     g = ghost_row(row.snapshot(), row)
-                    exp = run_spec(it, sp.attrs['custom_row_step'], [r.attrs['res'].attrs['name'], g, i, rv, handler])
+                    exp = run_spec(it, sp.attrs['custom_row_step'], [r.attrs['res'].attrs['name'], g, i, rv, handler,
+                                                                     fld_obj if form == 'field' else None])
                     return exp, g, row
 
                 def at_end(it, env, cap, events):
@@ -797,17 +805,21 @@ def nat_validate(h):
     for _ in range(h.n(30, 300)):
         vals = [h.rng.randint(0, 5) for _ in range(h.rng.randint(0, 6))]
         rows = [{'a': v} for v in vals]
-        mode = h.rng.choice(['drop', 'ignore', 'raise'])
-        from dataflows.base.schema_validator import ignore, drop, raise_exception
-        hd = {'drop': drop, 'ignore': ignore, 'raise': raise_exception}[mode]
+        mode = h.rng.choice(['drop', 'ignore', 'raise', 'clear'])
+        from dataflows.base.schema_validator import ignore, drop, raise_exception, clear
+        hd = {'drop': drop, 'ignore': ignore, 'raise': raise_exception, 'clear': clear}[mode]
         use_field = h.rng.random() < 0.5
         args = ('a', lambda v: v < 3) if use_field else (lambda row: row['a'] < 3,)
         got = h.run(lambda: Flow([dict(r) for r in rows], validate(*args, on_error=hd)).results(on_error=None)[0][0])
         bad = [i for i, v in enumerate(vals) if not v < 3]
         if mode == 'raise' and bad:
             ok = got[0] == 'exc' and type(got[2].cause).__name__ == 'ValidationError' and got[2].cause.index == bad[0]
-        elif mode == 'drop':
+        elif mode == 'drop' or (mode == 'clear' and not use_field):
+            # (a whole-row validator names no field: clear has nothing to null and can only leave the row out)
             ok = got[0] == 'ok' and got[1] == [r for r in rows if r['a'] < 3]
+        elif mode == 'clear':
+            # the one-field form: clear nulls exactly the offending field and keeps the row
+            ok = got[0] == 'ok' and got[1] == [({'a': None} if not r['a'] < 3 else r) for r in rows]
         else:
             ok = got[0] == 'ok' and got[1] == rows
         h.check(ok, P + 'validate.py::validate', (vals, mode, use_field), None, got[:2])
